@@ -196,14 +196,15 @@ def work(payload, skip, report):
                         acc.violation(o, {"pages": [page], "selected": sel}, ob, ex)
     else:
         _, pairs, selected = payload
-        for a, b in pairs:
+        for seq in pairs:
+            seq = list(seq)
             report(i)
             i += 1
-            res = check(ctx, path, [a, b], selected)
+            res = check(ctx, path, seq, selected)
             acc.case()
-            acc.distinct("pages", [a, b])
+            acc.distinct("pages", seq)
             for o, ob, ex in res:
-                acc.violation(o, {"pages": [a, b], "selected": selected}, ob, ex)
+                acc.violation(o, {"pages": seq, "selected": selected}, ob, ex)
         acc.sample({"pair": pairs[0] if pairs else None})
     close_ctx(ctx)
     shutil.rmtree(d, ignore_errors=True)
@@ -221,7 +222,27 @@ def catalogue():
     c.append({"title": "Foo", "ns": 0, "body": "", "model": "wikitext", "redirect": "Foo bar"})
     c.append({"title": "Template:Foo/documentation", "ns": 10, "body": "doc", "model": "wikitext"})
     c.append({"title": "Module:Foo/testcases", "ns": 828, "body": "tc", "model": "Scribunto"})
+    # pages that are filtered out for their content model or namespace, and redirects written the way dumps have them:
+    # in a sequence nothing of a skipped page may reach the next stored one
+    c.append({"title": "Template:Foo/styles.css", "ns": 10, "body": ".c { color: red }", "model": "sanitized-css"})
+    c.append({"title": "MediaWiki:Common.js", "ns": 8, "body": "alert(1)", "model": "javascript"})
+    c.append({"title": "Module:Foo/data.json", "ns": 828, "body": "{\"k\": 1}", "model": "json"})
+    c.append({"title": "Template:Bar", "ns": 10, "body": "#REDIRECT [[Template:Foo bar]]", "model": "wikitext",
+              "redirect": "Template:Foo bar"})
+    c.append({"title": "Template:Baz.css", "ns": 10, "body": "#REDIRECT [[Template:Foo/styles.css]]", "model": "css",
+              "redirect": "Template:Foo/styles.css"})
     return c
+
+
+def short_catalogue():
+    """One page of each behaviour (stored, template with noinclude, module, redirect, the filtered kinds) for ordered triples."""
+    c = catalogue()
+    keep = ["Foo", "Template:Foo", "Module:Foo", "Template:Foo/documentation", "Template:Foo/styles.css", "MediaWiki:Common.js",
+            "Template:Bar", "Template:Baz.css", "Module:Foo/data.json"]
+    out = []
+    for t in keep:
+        out.append([p for p in c if p["title"] == t][-1])
+    return out
 
 
 def main(run):
@@ -241,6 +262,11 @@ def main(run):
     pairs = list(itertools.product(cat, repeat=2))
     for k in range(16):
         chunks.append(("pairs", pairs[k::16], sel_main))
+    triples = list(itertools.product(short_catalogue(), repeat=3))
+    if q:
+        triples = [t for t in triples if t[1]["model"] not in ("wikitext", "Scribunto") or t[1]["ns"] == 8]
+    for k in range(16):
+        chunks.append(("pairs", triples[k::16], sel_main))
     for cid, acc, hung in run_chunks(work, chunks, nproc=run.nproc, case_timeout=60):
         run.acc.merge(acc)
     cov = {
@@ -249,7 +275,8 @@ def main(run):
                 "/testcases/x, /documentation/x, /testcases, /testcases2, /mytestcases, /documentation2, bare 'testcases', XML-special characters, Main: pseudo-prefix) x %d body shapes (XML specials, leading/trailing "
                 "blank lines, tabs, empty, ]]>, inclusion tags, comments, CR-LF as &#13;, unclosed noinclude) x 6 content models x "
                 "redirect yes/no; every namespace x 4 selection sets; every ordered pair of a %d-page collision catalogue (same title in "
-                "several namespaces, duplicates, first-letter case twins, the four default-template names, redirects). distinct = distinct "
+                "several namespaces, duplicates, first-letter case twins, the four default-template names, redirects, pages filtered for their "
+                "content model or namespace) and ordered triples of a 9-page short catalogue (quick: those whose middle page is filtered). distinct = distinct "
                 "generated page descriptions." % (len([c for c in chunks if c[0] == "single"]), len(TITLES), len(BODIES), len(cat)),
         "exhaustive": True,
     }
